@@ -6,7 +6,7 @@
 (*   env OR_IN   absolute path of the input  (array of definitions)        *)
 (*   env OR_OUT  absolute path of the output (array of result records)     *)
 (***************************************************************************)
-EXTENDS DefJson, Json, IOUtils
+EXTENDS DefJson, Json, IOUtils, NextGen
 
 In == JsonDeserialize(IOEnv.OR_IN)
 
@@ -34,7 +34,13 @@ Out(j) ==
      hess     |-> Opt(j, "hess",  [i \in 1..D.ns |-> MToTerms(Hess(D)[i])]),
      tj       |-> Opt(j, "tj",    MToTerms(TransJac(D))),
      tmean    |-> Opt(j, "tmean", VToTerms(TransMean(D))),
-     tvar     |-> Opt(j, "tvar",  VToTerms(TransVar(D)))]
+     tvar     |-> Opt(j, "tvar",  VToTerms(TransVar(D))),
+     \* beyond the listed properties: j.dis is the sequence of disease states
+     nextgen  |-> IF Wants(j, "nextgen")
+                  THEN LET Dis == {j.dis[k] : k \in 1..Len(j.dis)}
+                       IN  [F |-> VToTerms(FVec(D, Dis)), V |-> VToTerms(VVec(D, Dis)),
+                            dF |-> MToTerms(DF(D, Dis)), dV |-> MToTerms(DV(D, Dis))]
+                  ELSE <<>>]
 
 ASSUME JsonSerialize(IOEnv.OR_OUT, [i \in 1..Len(In) |-> Out(In[i])])
 =============================================================================
